@@ -473,7 +473,7 @@ func judgeHang(r *scriptResult, w *witness, synced bool) {
 	w.Result = rb
 	if same == 3 {
 		markHangConfirmed("hang/" + site)
-		run.Violation("hang/"+site, fmt.Sprintf("script does not finish within %v (and not within %v in 3/3 runs alone), Run is inside %s; last message delivered: %q [%s]", scriptWdog, 2*scriptWdog, site, lastOf(r)), w)
+		run.Violation("hang/"+site, fmt.Sprintf("script does not finish within %v (and not within %v in 3/3 runs alone), Run is inside %s; last message of the script: %q", scriptWdog, 2*scriptWdog, site, lastOf(r)), w)
 	} else {
 		run.Inconclusive("script %d exceeded the watchdog once (inside %s) but reproduced only %d/3 times", r.Idx, site, same)
 	}
